@@ -106,6 +106,8 @@ def make_judge(pid):
                 why = "hook invocations differ from %s" % kind2
         if ex.outcome != "ok" or ex.post != ex.pre:
             t.c["nontrivial"] += 1
+        if why is None and forest.state_invariant(ex.post, ex.labels) is not None:
+            why = "forest is inconsistent after the call: %s" % forest.state_invariant(ex.post, ex.labels)
         if why is None and not ex.faults and extra.get("queries_after_ops", False):
             q1 = universe_qvec(ex.u, exporters)
             if check_traps and traps.TRAPLOG:
@@ -134,6 +136,14 @@ def state_queries(kind, kind2, n, states, pid, traps_on, exporters):
     """Query vector on every reached state (rebuilt from its witness) in both universes."""
     t = core.Tally()
     for key, state, witness in states:
+        core.guard(t, pid, {"engine": "E1", "module": "mc.lockstep", "part": "state_queries", "kind": kind, "kind2": kind2, "n": n,
+                            "witness": [list(w) for w in witness], "traps": traps_on, "exporters": exporters},
+                   _state_query_one, t, kind, kind2, n, key, state, witness, pid, traps_on, exporters)
+    return t
+
+
+def _state_query_one(t, kind, kind2, n, key, state, witness, pid, traps_on, exporters):
+    if True:
         u1 = forest.rebuild(kind, n, witness)
         u1.arm()
         del traps.TRAPLOG[:]
@@ -154,8 +164,7 @@ def state_queries(kind, kind2, n, states, pid, traps_on, exporters):
         if why:
             t.violation("%s: %s" % (pid, why), {"engine": "E1", "module": "mc.lockstep", "part": "state_queries", "kind": kind,
                                                "kind2": kind2, "n": n, "witness": [list(w) for w in witness], "traps": traps_on,
-                                               "exporters": exporters, "forest": forest.fmt_state(state, list(forest.LABELS[:n]))})
-    return t
+                                               "exporters": exporters, "forest": forest.fmt_state(state, list(forest.LABELS[:n])) if state else None})
 
 
 def shape_queries(kind, kind2, shapes, pid, traps_on, exporters):
@@ -163,8 +172,18 @@ def shape_queries(kind, kind2, shapes, pid, traps_on, exporters):
     from . import tree
 
     t = core.Tally()
-    cls = forest.classes()
     for shape in shapes:
+        core.guard(t, pid, {"engine": "E2", "module": "mc.lockstep", "part": "shape_queries", "kind": kind, "kind2": kind2,
+                            "shape": shape, "traps": traps_on, "exporters": exporters},
+                   _shape_query_one, t, kind, kind2, shape, pid, traps_on, exporters)
+    return t
+
+
+def _shape_query_one(t, kind, kind2, shape, pid, traps_on, exporters):
+    from . import tree
+
+    cls = forest.classes()
+    if True:
         m = tree.Model.from_shape(shape)
         qs = []
         why = None
@@ -190,7 +209,6 @@ def shape_queries(kind, kind2, shapes, pid, traps_on, exporters):
         if why:
             t.violation("%s: %s" % (pid, why), {"engine": "E2", "module": "mc.lockstep", "part": "shape_queries", "kind": kind,
                                                "kind2": kind2, "shape": shape, "traps": traps_on, "exporters": exporters})
-    return t
 
 
 class _NullCtx(object):
